@@ -4,10 +4,13 @@ package harness
 
 import (
 	"context"
+	"fmt"
 	"testing"
+	"time"
 
 	"github.com/Vedant9500/WTF/internal/zzchan"
 	"github.com/Vedant9500/WTF/zz_verif/sim/simrt"
+	"github.com/Vedant9500/WTF/zz_verif/sim/simtime"
 )
 
 // TestChanSim: self-test of the simulated channels (bin/selftest-channels).
@@ -36,7 +39,7 @@ func TestChanSim(t *testing.T) {
 		}
 		return rr
 	}
-	racesSeen := 0
+	racesSeen, tickRuns := 0, 0
 	for _, sc := range scheds {
 		var sum int
 		run("unbuffered", sc, func() { sum = zzchan.Unbuffered(5) })
@@ -104,11 +107,53 @@ func TestChanSim(t *testing.T) {
 		if total < 6 || total > 15 {
 			t.Fatalf("cond-queue: total %d", total)
 		}
+		// timers on the simulated clock
+		simtime.Install(simtime.Epoch)
+		var tv int
+		var tok bool
+		wk := make(chan int, 1)
+		run("timeout-fires", sc, func() { tv, tok = zzchan.Timeout(wk, 5*time.Second) })
+		if tok || simtime.NowNS()-simtime.Epoch.UnixNano() != int64(5*time.Second) {
+			t.Fatalf("timeout-fires: %d %v clock moved %v", tv, tok, time.Duration(simtime.NowNS()-simtime.Epoch.UnixNano()))
+		}
+		wk <- 9
+		run("timeout-work", sc, func() { tv, tok = zzchan.Timeout(wk, 5*time.Second) })
+		if !tok || tv != 9 {
+			t.Fatalf("timeout-work: %d %v", tv, tok)
+		}
+		simtime.Install(simtime.Epoch)
+		var took time.Duration
+		run("backoff", sc, func() { took = zzchan.Backoff(3, 100*time.Millisecond) })
+		if took != 700*time.Millisecond || fmt.Sprint(simtime.Sleeps()) != "[100ms 200ms 400ms]" {
+			t.Fatalf("backoff: took %v sleeps %v", took, simtime.Sleeps())
+		}
+		simtime.Install(simtime.Epoch)
+		var ticks int
+		run("janitor", sc, func() {
+			j := zzchan.StartJanitor(time.Minute)
+			for i := 0; i < 3; i++ {
+				simtime.Sleep(time.Minute)
+				simrt.Yield("between sleeps")
+				simrt.Yield("between sleeps")
+				simrt.Yield("between sleeps")
+			}
+			ticks = j.Stop()
+		})
+		if ticks < 0 || ticks > 8 {
+			t.Fatalf("janitor: %d ticks", ticks)
+		}
+		if ticks > 0 {
+			tickRuns++
+		}
+		simtime.Uninstall()
 		var a, l1, l2 int
 		run("closed", sc, func() { a, ok, l1, l2 = zzchan.ClosedRecv() })
 		if a != 7 || ok || l1 != 2 || l2 != 0 {
 			t.Fatalf("closed: %d %v %d %d", a, ok, l1, l2)
 		}
+	}
+	if tickRuns == 0 {
+		t.Fatalf("janitor: the ticker never woke the background goroutine under any schedule")
 	}
 	if simrt.RaceEnabled && racesSeen == 0 {
 		t.Fatalf("racy: the detector never reported the race (the simulated channel adds an edge Go's does not)")
